@@ -33,7 +33,31 @@ pub fn build(prop: &str, draws: &[u16], tier: Tier) -> Case {
     let mut c = Case::new(prop, family, prog);
     c.cfg.max_permutations = Some(tier.iter_cap());
     c.cfg.max_branches = 5000;
+    // metamorphic variant (C02 only): also run the program with the bodies of the spawned threads
+    // permuted; the explored outcome sets must coincide up to that permutation
+    if prop == "C02" && c.prog.n_threads() >= 3 && s.chance(1, 3) {
+        c.x.n = Some(1 + s.pick(5) as i64);
+    }
     c
+}
+
+/// Permute the bodies of the spawned threads (thread i of the result runs the body of thread perm[i]).
+fn permute_threads(p: &Program, k: usize) -> (Program, Vec<usize>) {
+    let n = p.n_threads();
+    // k-th rotation / reversal of 1..n
+    let mut idx: Vec<usize> = (1..n).collect();
+    match k % 3 {
+        0 => idx.reverse(),
+        1 => idx.rotate_left(1),
+        _ => idx.rotate_right(1),
+    }
+    let mut perm = vec![0usize];
+    perm.extend(idx);
+    let mut q = p.clone();
+    for i in 1..n {
+        q.threads[i] = p.threads[perm[i]].clone();
+    }
+    (q, perm)
 }
 
 fn set_str(s: &BTreeSet<Outcome>) -> Vec<String> {
@@ -138,6 +162,39 @@ pub fn eval(case: &Case, must: bool) -> Verdict {
             v.detail["missing"] = serde_json::json!(missing.iter().map(|o| fmt_outcome(o)).collect::<Vec<_>>());
             v.detail["witness"] = serde_json::json!(w);
             return v.fail("missing_outcome", msg);
+        }
+        // metamorphic: thread symmetry
+        if let Some(k) = case.x.n {
+            let (q, perm) = permute_threads(p, k as usize);
+            if q != *p {
+                let run2 = interp::collect(&q, &case.cfg, false);
+                v.loom_iters += run2.report.iters as u64;
+                if !run2.report.capped && run2.report.panic.is_none() {
+                    v.label("thread_permutation_checked");
+                    // map outcomes of q back: results of q's thread i belong to p's thread perm[i]
+                    let mapped: BTreeSet<Outcome> = run2
+                        .outcomes
+                        .keys()
+                        .map(|o| {
+                            let mut r = o.clone();
+                            for i in 1..perm.len() {
+                                r[perm[i]] = o[i].clone();
+                            }
+                            r
+                        })
+                        .collect();
+                    if let Some(x) = mapped.iter().find(|x| !l.contains(*x) && br.u.outcomes.contains(*x)) {
+                        v.detail["permuted_program"] = serde_json::json!(format!("{}", q));
+                        return v.fail(
+                            "missing_outcome_vs_permuted",
+                            format!(
+                                "outcome {} is explored when the bodies of the spawned threads are permuted ({}) but never for the program itself, although C11 allows it",
+                                fmt_outcome(x), q
+                            ),
+                        );
+                    }
+                }
+            }
         }
     } else {
         let forbidden: Vec<&Outcome> = l.iter().filter(|o| !br.u.outcomes.contains(*o)).collect();
